@@ -858,3 +858,74 @@ Proof.
   - apply (tree_finds_keys s ins KI).
   - intros k Dk. apply (eq_get_spec s ins k KI Dk).
 Qed.
+
+(* ================================================================== Tuples holding the same pointer in several slots *)
+Lemma walk_cmp_lists : forall xs ys fuel, (length xs < fuel)%nat ->
+  walk_cmp fuel (SList xs) (SList ys) = out_of_option (seq_cmp value_cmp xs ys).
+Proof.
+  induction xs as [|x xs IH]; intros ys fuel Hf; destruct fuel as [|f]; try (simpl in Hf; lia);
+    destruct ys as [|y ys]; simpl; try reflexivity.
+  destruct (value_cmp x y) as [c|]; simpl; [|reflexivity].
+  destruct (c <? 0); [reflexivity|]. destruct (0 <? c); [reflexivity|].
+  apply IH. simpl in Hf. lia.
+Qed.
+
+(* with the index walk of the working tree, cmp(Tuple, sequence) is a function of the VALUES in the
+   slots alone, whatever pointers are repeated *)
+Theorem tuple_cmp_values_only : forall (items : pitems) k ys,
+  operand_cmp (OTup items) (OVal (VSeq k ys)) =
+  out_of_option (value_cmp (VSeq KTuple (map snd items)) (VSeq k ys)).
+Proof.
+  intros items k ys. unfold operand_cmp, self_side, obj_side.
+  change tuple_cmp_self_by_index with true. cbv iota.
+  simpl value_cmp. apply walk_cmp_lists.
+  unfold walk_fuel. simpl. rewrite map_length. nia.
+Qed.
+
+Lemma first_slot_next_nodup : forall (p : pitems) x v s,
+  NoDup (map fst (p ++ (x, v) :: s)) -> first_slot_next x (p ++ (x, v) :: s) = hd_error s.
+Proof.
+  induction p as [|[q w] p IH]; intros x v s ND; simpl.
+  - rewrite N.eqb_refl. reflexivity.
+  - simpl in ND. inversion ND as [|? ? Hq ND']; subst.
+    destruct (q =? x)%N eqn:E.
+    + apply N.eqb_eq in E. subst q. exfalso. apply Hq. rewrite map_app. apply in_or_app. right. left. reflexivity.
+    + apply IH. exact ND'.
+Qed.
+
+Lemma iter_walk_alias_free : forall items, NoDup (map fst items) ->
+  forall fuel s0 p s, items = p ++ s ->
+  walk_cmp fuel s0 (SIter items (hd_error s)) = walk_cmp fuel s0 (SList (map snd s)).
+Proof.
+  intros items ND. induction fuel as [|f IH]; intros s0 p s E; [reflexivity|].
+  destruct s as [|[x v] s']; simpl.
+  - reflexivity.
+  - destruct (side_head s0) as [a|]; [|reflexivity].
+    destruct (value_cmp a v) as [c|]; [|reflexivity].
+    destruct (c <? 0); [reflexivity|]. destruct (0 <? c); [reflexivity|].
+    rewrite E at 2. rewrite (first_slot_next_nodup p x v s') by (rewrite <- E; exact ND).
+    apply (IH (side_next s0) (p ++ [(x, v)]) s'). rewrite <- app_assoc. exact E.
+Qed.
+
+(* a Tuple whose slots hold pairwise different pointers behaves, as right operand too, exactly like
+   the sequence of its values (so the statements about `value` cover it) *)
+Theorem alias_free_tuple_is_its_values : forall items, NoDup (map fst items) ->
+  forall fuel s0, walk_cmp fuel s0 (SIter items (hd_error items)) = walk_cmp fuel s0 (SList (map snd items)).
+Proof. intros items ND fuel s0. apply (iter_walk_alias_free items ND fuel s0 [] items). reflexivity. Qed.
+
+(* the seeded variant (self walked with Tuple_Iter_Next) is wrong on tuple(one, one, two) *)
+Theorem tuple_cmp_iter_walk_refuted :
+  let one := VInt 1 in let two := VInt 2 in
+  let t : pitems := [(1%N, one); (1%N, one); (2%N, two)] in
+  walk_cmp 30 (SIter t (hd_error t)) (SList [one; one; two]) = WRes (-1) /\
+  walk_cmp 30 (SList (map snd t)) (SList [one; one; two]) = WRes 0.
+Proof. vm_compute. split; reflexivity. Qed.
+
+(* finding F3 as it shows in cmp on the unchanged tree: a Tuple with a repeated pointer as RIGHT
+   operand (or compared with itself) is walked with Tuple_Iter_Next *)
+Theorem aliased_right_operand_refuted :
+  let one := VInt 1 in let two := VInt 2 in
+  let t : pitems := [(1%N, one); (1%N, one); (2%N, two)] in
+  walk_cmp 30 (SList [one; one; two]) (SIter t (hd_error t)) = WRes 1 /\
+  walk_cmp 30 (SList (map snd t)) (SIter t (hd_error t)) = WRes 1.
+Proof. vm_compute. split; reflexivity. Qed.
